@@ -280,8 +280,16 @@ class CondTracker(object):
             tgt = fn.kid(n, 0)
         elif n['k'] == 'decl':
             name = n.get('name')
-            if any(isinstance(f, tuple) and len(f) == 3 and f[1] == name for f in facts):
-                return frozenset(f for f in facts if not (isinstance(f, tuple) and len(f) == 3 and f[1] == name))
+            keep = [f for f in facts if not (isinstance(f, tuple) and len(f) == 3 and f[1] == name)]
+            # `int result = ERROR_SUCCESS;` : the initial value is known
+            if n.get('c') and name in self.tracked():
+                r = fn.kid(n, 0)
+                while r is not None and r['k'] == 'cast':
+                    r = fn.kid(r, 0)
+                if r is not None and 'v' in r and r['k'] in ('int', 'char', 'ref', 'un', 'bin'):
+                    keep.append(('eq', name, r['v']))
+            if len(keep) != len(facts) or (keep and keep[-1] not in facts):
+                return frozenset(keep)
             return facts
         if tgt is None:
             return facts
